@@ -22,7 +22,7 @@ let parse_sub (s : string) : ec3sub =
   | _ -> failwith ("bad ec3 sub " ^ s)
 
 (* tables filled while parsing the ops of one case *)
-let avc_tab : (string, (BinNums.coq_N * BinNums.coq_N) * ((BinNums.coq_N * BinNums.coq_N) * BinNums.coq_N)) Hashtbl.t = Hashtbl.create 16
+let avc_tab : (string, avc_info) Hashtbl.t = Hashtbl.create 16
 let hevc_tab : (string, (BinNums.coq_N * BinNums.coq_N) * BinNums.coq_N list) Hashtbl.t = Hashtbl.create 16
 
 let first_of (s : string) = if s = "_" then None else Some (L.hd (split_on ',' s))
@@ -32,7 +32,8 @@ let parse_op (s : string) : op =
   | ["A"; ts; m; lang] -> AddEmptyTrack (ni ts, str_of_hex m, str_of_hex lang)
   | ["V"; k; name; spss; ppss; incl; pr] ->
     (match first_of spss, dots pr with
-     | Some h, [w; hh; p; c; l] -> Hashtbl.replace avc_tab h ((ni w, ni hh), ((ni p, ni c), ni l))
+     | Some h, [w; hh; p; c; l; cf; bl; bc] ->
+       Hashtbl.replace avc_tab h ((ni w, ni hh), (((ni p, ni c), ni l), ((ni cf, ni bl), ni bc)))
      | _ -> ());
     SetDesc (nat_of_int (int_of_string k), DAvc (str_of_hex name, strs_of spss, strs_of ppss, incl = "1"))
   | ["H"; k; name; vpss; spss; ppss; seis; incl; pr] ->
@@ -58,8 +59,8 @@ let hevc_parse (sps : BinNums.coq_N list) = Hashtbl.find_opt hevc_tab (hex_of_st
 
 let cfg_string (c : scfg) : string =
   match c with
-  | CfgAvcC a -> Printf.sprintf "a.%s.%s.%s.%s/%s" (si a.ac_profile) (si a.ac_compat) (si a.ac_level)
-                   (of_strs a.ac_sps) (of_strs a.ac_pps)
+  | CfgAvcC a -> Printf.sprintf "a.%s.%s.%s.%s/%s/%s.%s.%s.0.0" (si a.ac_profile) (si a.ac_compat) (si a.ac_level)
+                   (of_strs a.ac_sps) (of_strs a.ac_pps) (si a.ac_chroma) (si a.ac_bdl) (si a.ac_bdc)
   | CfgHvcC h ->
     let arrs = match h.hc_arrays with
       | [] -> "_"
